@@ -196,8 +196,15 @@ def run_case(case, tier):
         return util.finish(case, viol, counts, classes, False, {"skipped": "number out of field"}, inconclusive="field")
     ta, tb = pdbio.dump(recs), pdbio.dump(new)
     opts = ["-d"] if rng.random() < 0.15 else util.neutral_options(rng, families=("display", "grid", "protonation", "keep"), classes=classes)
+    opts_b = list(opts)
+    if rng.random() < 0.2:
+        # the same chain selected in both: by its old name in the original, by its new name in the copy
+        ids = sorted({r.chain for r in recs if r.raw is None})
+        pick = rng.choice(ids)
+        opts, opts_b = opts + ["-c", pick], opts_b + ["-c", rdesc.get("map", {}).get(pick, pick)]
+        classes.append("with-chain-selection")
     ra = obs.run_single(ta, opts)
-    rb = obs.run_single(tb, opts)
+    rb = obs.run_single(tb, opts_b)
     counts["pipeline_runs"] = 2
     counts["comparisons"] = 1
     counts["relabel:" + kind] = 1
